@@ -626,11 +626,11 @@ var probeDepths = []string{"added-1", "added", "added+1", "random"}
 // The extracted model works on lists: replaying a history on n slots costs about 50 n^2 list steps
 // (a third of a second at n = 1000, five seconds at n = 4096).  So the number of big cases is
 // limited per tier, not their size.  The thorough tier runs the whole product
-// size x depth x regrowing end x origin up to 1025 slots, half of it for 2047..2049, a quarter for
-// 4095..4097 and two cases of 8191..8193; the quick tier runs, for every size of 255..257 and
+// size x depth x regrowing end x origin up to 1025 slots (the probing depths with two of the four
+// pairs), a quarter of it for 2047..2049, an eighth for 4095..4097 and two cases of 8191..8193; the quick tier runs, for every size of 255..257 and
 // 511..513 and every depth, ONE case whose (regrowing end, origin) pair walks through the four
 // pairs as the depth changes, one case per depth for 1000/1023/1024/1025 taking turns, and a
-// seed-dependent three of the 2047..4097 cases.
+// seed-dependent one of 2047..2049 and one of 4095..4097.
 func genScale(o *tr.Opts, w *tr.W, r *tr.Rand) {
 	// sizes up to 129 (cheap)
 	for _, size := range []int{3, 4, 5, 7, 8, 9, 15, 16, 17, 31, 32, 33, 63, 64, 65, 127, 128, 129} {
@@ -660,6 +660,9 @@ func genScale(o *tr.Opts, w *tr.W, r *tr.Rand) {
 		for _, size := range []int{255, 256, 257, 511, 512, 513, 1000, 1023, 1024, 1025} {
 			for di := range allDepths {
 				for pair := 0; pair < 4; pair++ {
+					if di >= len(depths) && pair != (di+size)%4 && pair != (di+size+1+r.Intn(3))%4 {
+						continue // the probing depths: two of the four pairs
+					}
 					one(size, di, pair)
 				}
 			}
@@ -668,7 +671,7 @@ func genScale(o *tr.Opts, w *tr.W, r *tr.Rand) {
 		for si, size := range []int{255, 256, 257, 511, 512, 513} {
 			rot := r.Intn(4)
 			for di := range allDepths {
-				if di >= len(depths) && !r.Chance(1, 2) {
+				if di >= len(depths) && !r.Chance(1, 3) {
 					continue
 				}
 				one(size, di, (di+si+rot)%4)
@@ -680,9 +683,7 @@ func genScale(o *tr.Opts, w *tr.W, r *tr.Rand) {
 		for di := range depths {
 			one(cls[(di+rot)%4], di, (di+rot2)%4)
 		}
-		for k := 0; k < 2; k++ {
-			one(tr.Pick(r, cls), len(depths)+r.Intn(len(probeDepths)), r.Intn(4))
-		}
+		one(tr.Pick(r, cls), len(depths)+r.Intn(len(probeDepths)), r.Intn(4))
 	}
 	// big: 2047..2049, 4095..4097 (and 8191..8193, two random large ones in the thorough tier)
 	type bigCase struct {
@@ -714,8 +715,8 @@ func genScale(o *tr.Opts, w *tr.W, r *tr.Rand) {
 		return cs[:k]
 	}
 	var chosen []bigCase
-	chosen = append(chosen, pickN(mids, o.Scale(2, 36))...)
-	chosen = append(chosen, pickN(bigs, o.Scale(1, 18))...)
+	chosen = append(chosen, pickN(mids, o.Scale(1, 18))...)
+	chosen = append(chosen, pickN(bigs, o.Scale(1, 9))...)
 	if o.Thorough() {
 		chosen = append(chosen, pickN(huge, 2)...)
 		chosen = append(chosen, bigCase{r.Range(2500, 7000), r.Intn(4), tr.Pick(r, depths)}, bigCase{r.Range(2500, 7000), r.Intn(4), "random"})
@@ -731,9 +732,93 @@ func genScale(o *tr.Opts, w *tr.W, r *tr.Rand) {
 		}
 		scaleCase(w, r, c.size, from, c.d, how, c.pair&1, after, false)
 	}
+	// sparse and wrapped: a preallocated ring filled from both ends so that the contents wrap around
+	// the end of the buffer (Push walks the head down from len-1), observed, then drained in
+	// stages by either end to just below a half, a quarter, an eighth of the buffer -- the
+	// occupancies at which a buffer might be compacted -- with every observer on what remains at
+	// every stage; then (sometimes) refilled exactly and regrown
+	sparse := []int{255, 256, 257, 511, 512, 513, 1000, 1023, 1024, 1025}
+	if o.Thorough() {
+		sparse = append(sparse, 2047, 2048, 2049, 4095, 4096, 4097)
+	} else {
+		sparse = append(sparse, r.Range(2047, 2049))
+	}
+	for _, size := range sparse {
+		reps := o.Scale(1, 6)
+		if size > 1025 {
+			reps = 1
+		}
+		for rep := 0; rep < reps; rep++ {
+			s := newBSess("s" + strconv.Itoa(size))
+			a := size / 2 // pushed: they occupy [size-a, size)
+			if rep%2 == 1 {
+				a = r.Range(1, size-1)
+			}
+			b := r.Range((size-a)/2, size-a) // added: they occupy [0, b)
+			if r.Bool() {
+				s.pushes(a)
+				s.adds(b)
+			} else { // the same layout reached in the other order (Add first: index 0 upwards)
+				s.adds(b)
+				s.pushes(a)
+			}
+			if size <= 600 || r.Chance(1, 3) {
+				s.obs(a)
+			}
+			for _, frac := range []int{2, 4, 8} {
+				_, n, l := s.state()
+				target := l/frac - 1
+				if n <= target {
+					continue
+				}
+				k := n - target
+				h, _, _ := s.state()
+				fp := l - h  // elements in front of the wrap point (only meaningful when wrapped)
+				bp := n - fp // elements behind it
+				lo, hi := max(0, k-bp+1), min(k, fp-1)
+				switch x := r.Intn(6); {
+				case h+n > l && lo <= hi && x < 4: // keep the contents wrapped: take from both parts
+					x := r.Range(lo, hi)
+					if r.Bool() {
+						s.pops(x)
+						s.popLasts(k - x)
+					} else {
+						s.popLasts(k - x)
+						s.pops(x)
+					}
+				case x == 4:
+					s.pops(k)
+				default:
+					s.popLasts(k)
+				}
+				h, n, l = s.state()
+				if n > 0 && h+n > l {
+					s.tags["big-sparse-wrapped-below-1/"+strconv.Itoa(frac)] = true
+				}
+				s.obs(l - h)
+				if frac == 4 && r.Chance(1, 3) { // back up a little: churn around the threshold
+					s.adds(r.Range(1, 3))
+					s.pushes(r.Range(1, 3))
+					s.pops(r.Range(1, 4))
+				}
+			}
+			if r.Chance(1, 3) && size <= 1025 {
+				s.fillExact(r, r.Intn(3))
+				if r.Bool() {
+					s.adds(1)
+				} else {
+					s.pushes(1)
+				}
+				h, _, l := s.state()
+				s.obs(l - h)
+			}
+			s.drainBoth(r, false)
+			s.emit(w, "scale", "scale-sparse-wrapped", "scale-size-"+sizeClass(size))
+		}
+	}
 	// grow-drain-regrow cycles from the zero value: grow to N from both ends, drain to N/8..N/2,
 	// observe everything, refill past the next regrowth, observe, several times, then drain
-	for i := 0; i < o.Scale(7, 100); i++ {
+	for i := 0; i < o.Scale(7, 60); i++ {
 		size := tr.Pick(r, []int{255, 256, 257, 300})
 		rounds := 2
 		if o.Thorough() {
